@@ -6,7 +6,7 @@ from .. import scenario
 
 ID = "C04"
 LEVEL = "exploration"
-RULE = ("three case families: (1) every .ms file of the repository's example corpus as entry point of a copy of its directory; "
+RULE = ("four case families: (0) SIZE boundaries of the file format - string literals of 250 ... 70 000 bytes around every power of two, functions capturing up to 300 variables, files with up to 1 200 functions, names of 1 000 characters, jumps over 12 000 statements, literals with 1 000 elements, 250 parameters - each with a computed expected output; (1) every .ms file of the repository's example corpus as entry point of a copy of its directory; "
         "(2) programs from the generators of C01, C07, C08, C12, C13, C15 and the two-module failing programs of C17 "
         "(Hypothesis); (3) EXHAUSTIVELY all string literals up to length 3 (quick: + a seeded sample of length 4; thorough: all "
         "of length 4) over the alphabet {quote, backslash, space, TAB, LF, CR, n, r, t, a, e-acute, emoji, NBSP, U+3000, VT} in escaped and raw "
@@ -134,7 +134,7 @@ def check(case):
                 r.failure = first_known
         return r
     files, entry = case["files"], case.get("entry", "main.ms")
-    sc = make_scenario(files, entry, loose=(fam == "corpus"))
+    sc = make_scenario(files, entry, expect=case.get("expect"), loose=(fam == "corpus"))
     res, fails, _ = scenario.execute(sc)
     text = "".join(v for v in files.values() if isinstance(v, str))
     nt = special(text) or len([f for f in files if f.endswith(".ms")]) > 1
@@ -196,8 +196,43 @@ def string_cases(tier, seed):
     return [{"family": "strings", "items": items[i:i + 150]} for i in range(0, len(items), 150)]
 
 
+def size_cases():
+    """SIZE boundaries of the file format: long arguments, many arguments, many functions, long names, far jumps.
+    Every program has a computed expected stdout."""
+    out = []
+
+    def add(name, src, exp):
+        out.append({"family": "sizes", "origin": "size:" + name, "files": {"main.ms": src}, "expect": exp})
+    for n in (250, 255, 256, 257, 1000, 1019, 1020, 1023, 1024, 1025, 2047, 2048, 4095, 4096, 4097, 8192, 65535, 65536, 70000):
+        body = ("ab cd\u00e9" * (n // 6 + 1))[:n]
+        add("string-%d" % n, "s = \"%s\"\nprint s.len()\nprint s\nprint \"@end\"\n" % body, "%d\n%s\n@end\n" % (len(body.encode("utf-8")), body))
+    for n in (8, 40, 130, 300):
+        names = ["cap%d" % i for i in range(n)]
+        src = "mk = fn() -> fn() -> int {\n" + "".join("\t%s = %d\n" % (v, i) for i, v in enumerate(names)) + \
+              "\treturn fn() -> int {\n\t\treturn " + " + ".join(names) + "\n\t}\n}\nf = mk()\nprint f()\n"
+        add("captures-%d" % n, src, "%d\n" % sum(range(n)))
+    for n in (20, 130, 300, 1200):
+        src = "".join("f%d = fn() -> int {\n\treturn %d\n}\n" % (i, i) for i in range(n)) + "print f0() + f%d()\n" % (n - 1)
+        add("functions-%d" % n, src, "%d\n" % (n - 1))
+    for n in (60, 200, 1000):
+        nm = "v" + "x" * n
+        add("name-%d" % n, "%s = 5\n%s_f = fn() -> int {\n\treturn %s + 1\n}\nprint %s_f()\n" % (nm, nm, nm, nm), "6\n")
+    for n in (40, 130, 300, 3000, 12000):
+        # an if body / a loop body of n statements: jump offsets beyond 127, 255, 32767
+        body = "\tt = t + 1\n" * n
+        src = "t = 0\nc = 0\nwhile c < 2 {\n\tc = c + 1\n\tif c == 1 {\n\t\tcontinue\n\t}\n" + body + "}\nif c == 5 {\n" + body + "} else {\n\tprint \"else\"\n}\nprint t\n"
+        add("far-jump-%d" % n, src, "else\n%d\n" % n)
+    for n in (10, 100, 1000):
+        src = "l: [int...] = [" + ", ".join(str(i) for i in range(n)) + "]\nprint l.len()\nm = map[str, int] {" + ", ".join("\"k%d\": %d" % (i, i) for i in range(n)) + "}\nprint m.len()\nprint m[\"k%d\"]\n" % (n - 1)
+        add("literal-%d-elements" % n, src, "%d\n%d\n%d\n" % (n, n, n - 1))
+    for n in (5, 60, 250):
+        src = "g = fn(" + ", ".join("a%d: int" % i for i in range(n)) + ") -> int {\n\treturn a0 + a%d\n}\nprint g(" % (n - 1) + ", ".join(str(i) for i in range(n)) + ")\n"
+        add("parameters-%d" % n, src, "%d\n" % (n - 1))
+    return out
+
+
 def enumerated(tier, seed):
-    return corpus_cases() + string_cases(tier, seed)
+    return corpus_cases() + size_cases() + string_cases(tier, seed)
 
 
 def strategy(tier):
